@@ -190,6 +190,18 @@ let () =
         let out = block_visit mangle l in
         print_endline (String.concat " " ("b" :: List.map (fun x -> string_of_int (int_of_nat x)) out));
         flush stdout
+      | ["drun"; nops] ->
+        (* the byte-level store model: observations, and an MD5 of the predicted file after every step *)
+        let nops = int_of_string nops in
+        let ops = List.init nops (fun _ -> parse_op (input_line stdin)) in
+        let outs = drun dinit ops in
+        let files = dfiles dinit ops in
+        List.iter2 (fun o f ->
+          let b = Bytes.create (List.length f) in
+          List.iteri (fun i x -> Bytes.set b i (Char.chr (int_of_n x))) f;
+          print_endline (out_str o ^ " | " ^ string_of_int (Bytes.length b) ^ " " ^ Digest.to_hex (Digest.bytes b))) outs files;
+        print_endline "END";
+        flush stdout
       | ["quit"] -> exit 0
       | _ -> print_endline ("ERR unknown request: " ^ line); flush stdout
     done
